@@ -216,6 +216,7 @@ func cmdCheck(args []string) int {
 		}
 	}
 	nReplay := 0
+	nativeViol := map[string]int{}
 	rng := rand.New(rand.NewSource(int64(seed)))
 
 	for _, tg := range targets {
@@ -300,6 +301,32 @@ func cmdCheck(args []string) int {
 					xmismatch++
 					if len(unconfirmed) < 10 {
 						unconfirmed = append(unconfirmed, "cross-execution mismatch in "+label+": "+d)
+					}
+					// The real code, run natively on this concrete input, fails an assertion of this property that the
+					// encoding passed: the encoding is wrong somewhere (the run stays inconclusive), but the failure of the
+					// real code is a fact. It is reported as a violation when it reproduces on a second native run.
+					for _, f := range nr.Failed {
+						if propOf(f) != id || nativeViol[label+"|"+f] >= 3 {
+							continue
+						}
+						nr2, err2 := tw.run(rf.Pkg, rf, "")
+						again := false
+						if err2 == nil {
+							for _, f2 := range nr2.Failed {
+								again = again || f2 == f
+							}
+						}
+						if !again {
+							continue
+						}
+						nativeViol[label+"|"+f]++
+						rf.Property, rf.AssertID, rf.Kind, rf.Msg, rf.Native = id, f, "native-cross-execution", "the real code fails this assertion natively on a path the encoding passed", nr
+						nReplay++
+						path := filepath.Join(replayDir, fmt.Sprintf("%s-%d.json", id, nReplay))
+						writeJSON(path, rf)
+						violations = append(violations, path)
+						fmt.Printf("VIOLATION property=%s replay=%s\n", id, path)
+						fmt.Printf("  harness=%s assert=%s kind=native-cross-execution (real code fails natively; the encoding passed this path)\n", label, f)
 					}
 				}
 				if len(samples) < 6 {
